@@ -2826,6 +2826,21 @@ theorem next_attempt_only_after_sleep (hx : isOp x.1 = true) (h1 : 1 ≤ (run cf
   cases r <;> simp_all [isOp, step]
   cases a <;> simp_all
 
+/-- **A delay is computed only if the failure permits a retry**: the strategy is asked only after the
+    failure of the attempt was classified, its class is retryable and has a strategy, the per-class and
+    UNKNOWN caps are not exceeded, and the deadline has not passed. -/
+theorem strategy_only_if_class_permits (hx : ∃ k kd c, x.1 = .strategy k kd c) :
+    (run cfg p).classified = true ∧ classStop cfg (run cfg p) = false ∧
+    ¬ cfg.deadline ≤ elapsedOf (p ++ [x]) - x.2.dur := by
+  have hb := (clauses cfg e w hg).1
+  rw [ht] at hb
+  have := unflagged cfg p rest x hb
+  obtain ⟨r, a⟩ := x
+  obtain ⟨k, kd, c, h⟩ := hx
+  subst h
+  simp only [step, Bool.or_eq_false_iff, decide_eq_false_iff_not, Bool.not_eq_false'] at this
+  exact ⟨this.1.1.2, this.1.2, this.2⟩
+
 /-- **The budget is consulted at most once per attempt, after the strategy** (C10, policy level). -/
 theorem budget_once_after_strategy (hx : ∃ g, x = (.budgetConsume, .granted g)) :
     (run cfg p).strat = true ∧ (run cfg p).granted = false ∧ (run cfg p).refused = false := by
